@@ -378,7 +378,10 @@ fn exec_inner<V: VirtualFileSystem>(v: &V, hs: &mut Handles, op: &Op) -> Outcome
         Op::WriteAll { p, d } => r(v.write_all(p, &d.0), |_| Val::Unit),
         Op::WriteLines { p, ls } => r(v.write_lines(p, ls), |_| Val::Unit),
         Op::OpenRead { h, p } => {
-            hs.slots[*h] = None;
+            // a slot holds one handle at a time: opening into an occupied slot does not apply
+            if hs.slots[*h].is_some() {
+                return Outcome::Skip;
+            }
             match v.read(p) {
                 Ok(f) => {
                     hs.slots[*h] = Some(H::R(f));
@@ -388,7 +391,10 @@ fn exec_inner<V: VirtualFileSystem>(v: &V, hs: &mut Handles, op: &Op) -> Outcome
             }
         },
         Op::OpenWrite { h, p } => {
-            hs.slots[*h] = None;
+            // a slot holds one handle at a time: opening into an occupied slot does not apply
+            if hs.slots[*h].is_some() {
+                return Outcome::Skip;
+            }
             match v.write(p) {
                 Ok(f) => {
                     hs.slots[*h] = Some(H::W(f));
@@ -398,7 +404,10 @@ fn exec_inner<V: VirtualFileSystem>(v: &V, hs: &mut Handles, op: &Op) -> Outcome
             }
         },
         Op::OpenAppend { h, p } => {
-            hs.slots[*h] = None;
+            // a slot holds one handle at a time: opening into an occupied slot does not apply
+            if hs.slots[*h].is_some() {
+                return Outcome::Skip;
+            }
             match v.append(p) {
                 Ok(f) => {
                     hs.slots[*h] = Some(H::W(f));
